@@ -77,6 +77,11 @@ public:
   /** Returns the size of the XBW structure */
   uint size() const;
 
+  /** Writes the XBW in the format read by the constructor.
+   * @param output the output stream
+   */
+  void save(std::ostream &output) const;
+
 protected:
   /** number of nodes in the tree */
   uint nodesCount;
